@@ -51,6 +51,7 @@ theorem C10_fail_on_dangling (rules : List Rule) (root : Str) (fs : FS) (absPath
     prepVisit rules root fs absPath node = (fs, .fail) := by
   rw [sn_prepVisit_eq]
   simp only [hrel, hdot, hex, hexd, if_false, Bool.false_eq_true]
+  rw [sn_visit_tail_fail]
   unfold snCheck
   simp only [hroot, hdang]
 
@@ -67,6 +68,7 @@ theorem C10_fail_on_escape (rules : List Rule) (root : Str) (fs : FS) (absPath :
     prepVisit rules root fs absPath node = (fs, .fail) := by
   rw [sn_prepVisit_eq]
   simp only [hrel, hdot, hex, hexd, if_false, Bool.false_eq_true]
+  rw [sn_visit_tail_fail]
   unfold snCheck
   have : absRoot.isPrefixOf real = false := by
     cases hb : absRoot.isPrefixOf real with
@@ -87,6 +89,7 @@ theorem C10_fail_unless_file_or_dir (rules : List Rule) (root : Str) (fs : FS) (
     prepVisit rules root fs absPath node = (fs, .fail) := by
   rw [sn_prepVisit_eq]
   simp only [hrel, hdot, hex, hexd, if_false, Bool.false_eq_true]
+  rw [sn_visit_tail_fail]
   unfold snCheck
   simp only [hroot, hreal]
   cases hl : fs.lookup real with
@@ -124,8 +127,24 @@ theorem C10_fail_on_missing_root (rules : List Rule) (root : Str) (fs : FS) (abs
     prepVisit rules root fs absPath node = (fs, .fail) := by
   rw [sn_prepVisit_eq]
   simp only [hrel, hdot, hex, hexd, if_false, Bool.false_eq_true]
+  rw [sn_visit_tail_fail]
   unfold snCheck
   simp only [hroot]
+
+/-- **C10_fail_on_nonlocal_link.** A visited link that is not excluded and whose target is absolute,
+or leaves the package as written when joined to the link's directory (`!filepath.IsLocal`), makes the
+callback fail — wherever it resolves (repair of F31). -/
+theorem C10_fail_on_nonlocal_link (rules : List Rule) (root : Str) (fs : FS) (absPath : Str) (t : Str)
+    (rel : Str) (hrel : pathRel root absPath = some rel) (hdot : rel ≠ dot)
+    (hex : (excludes rules rel).1 = false)
+    (hbad : isAbs t = true ∨ isLocal (pathJoin (pathDir rel) t) = false) :
+    prepVisit rules root fs absPath (.link t) = (fs, .fail) := by
+  rw [sn_prepVisit_eq]
+  simp only [hrel, hdot, hex, if_false, Bool.false_eq_true, snIsDir, Bool.false_and]
+  have : snLinkOK rel (.link t) = false := by
+    rcases hbad with e | e <;> simp [snLinkOK, e]
+  rw [this]
+  simp
 
 /-! ### `.fail` propagates -/
 
@@ -209,8 +228,26 @@ theorem C10_visited_ok (rules : List Rule) (root : Str) (fs fs' : FS) (absPath :
   split at h
   · cases h
   · have h1 : fs = fs' := congrArg Prod.fst h
-    have h2 : snCheck fs root rel = .cont := congrArg Prod.snd h
-    exact ⟨h1.symm, sn_check_cont h2⟩
+    have h2 : (if snLinkOK rel node then snCheck fs root rel else .fail) = SRes.cont := congrArg Prod.snd h
+    split at h2
+    · exact ⟨h1.symm, sn_check_cont h2⟩
+    · cases h2
+
+/-- **C10_visited_link_ok.** … and if the path is a link, its target is relative and, joined to the
+directory of the link (relative to the root), stays inside the root as written (`filepath.IsLocal`):
+the link does not depend on the name the package directory has while it is prepared. -/
+theorem C10_visited_link_ok (rules : List Rule) (root : Str) (fs fs' : FS) (absPath : Str) (t : Str)
+    (rel : Str) (hrel : pathRel root absPath = some rel) (hdot : rel ≠ dot)
+    (hex : (excludes rules rel).1 = false)
+    (h : prepVisit rules root fs absPath (.link t) = (fs', .cont)) :
+    isAbs t = false ∧ isLocal (pathJoin (pathDir rel) t) = true := by
+  rw [sn_prepVisit_eq] at h
+  simp only [hrel, hdot, hex, if_false, Bool.false_eq_true, snIsDir, Bool.false_and] at h
+  have h2 : (if snLinkOK rel (.link t) then snCheck fs root rel else .fail) = SRes.cont := congrArg Prod.snd h
+  split at h2
+  · rename_i hok
+    simpa [snLinkOK] using hok
+  · cases h2
 
 /-- the callback never answers `SkipDir` for anything but a directory -/
 theorem C10_skipDir_only_dirs (rules : List Rule) (root : Str) (fs fs' : FS) (absPath : Str) (node : Node)
@@ -487,9 +524,9 @@ theorem C10_sanitised_before_rename (fs : FS) (work final : Str) (fs' : FS) (d :
     cases n with
     | file pm mt c => exact Or.inl ⟨pm, mt, c, rfl⟩
     | dir pm mt => exact Or.inr (Or.inl ⟨pm, mt, rfl⟩)
-    | special => exact h3.elim
+    | special => exact h3.1.elim
     | link t =>
-      obtain ⟨fsk, realk, hsk, hek, hprek, _⟩ := h3
+      obtain ⟨⟨fsk, realk, hsk, hek, hprek, _⟩, _⟩ := h3
       have hne : pathSegs work ++ x ≠ pathSegs work := by
         intro e
         have := congrArg List.length e
